@@ -461,7 +461,7 @@ def run(prop, tier):
     if prop == "C05":
         scen += gen_forget_slowflush(rng, 6 if q else 60) + gen_flush_faults(rng, 4 if q else 40)
     if prop == "C09":
-        scen += gen_race_rounds(rng, 4 if q else 24, 300 if q else 600) + gen_count_only(rng, 3 if q else 30, 2400 if q else 12000)
+        scen += gen_race_rounds(rng, 24 if q else 200, 50) + gen_count_only(rng, 3 if q else 30, 2400 if q else 12000)
     for i, s in enumerate(scen):
         s["id"] = i + 1
         s.setdefault("seed", chk.seed * 100000 + i)
